@@ -114,9 +114,9 @@ class FullTranslator(Translator):
                 if not env.extract:
                     self.bad(n, 'reference to local %s that is not bound here' % r.get('name'))
                 ty = self.check_param(d) if rk == 'ParmVarDecl' else self.resolve(d['type'], d)
-                if ty.kind not in ('int', 'bool', 'rec', 'pair', 'vec', 'ptr'):
+                if ty.kind not in ('int', 'bool', 'rec', 'pair', 'vec', 'ptr', 'pptr'):
                     self.bad(n, 'free variable %s of unsupported type' % r.get('name'))
-                if ty.kind == 'ptr':
+                if ty.kind in ('ptr', 'pptr'):          # a `const char**` free variable: the VALUE of its cell (an extracted expression only reads)
                     env.buf = True
                 off = (d.get('range', {}).get('begin', {}) or {}).get('offset', 0)
                 nm = env.fresh(d['name'])
